@@ -200,6 +200,13 @@ func validateEncryptedPayload(encryptedInnerData []byte) error {
 			Errorf("encrypted inner data size %d < minimum %d",
 				len(encryptedInnerData), ENCRYPTED_LEASESET_MIN_ENCRYPTED_SIZE)
 	}
+	if len(encryptedInnerData) > ENCRYPTED_LEASESET_MAX_ENCRYPTED_SIZE {
+		return oops.Code("encrypted_data_too_long").
+			With("size", len(encryptedInnerData)).
+			With("maximum", ENCRYPTED_LEASESET_MAX_ENCRYPTED_SIZE).
+			Errorf("encrypted inner data size %d > maximum %d",
+				len(encryptedInnerData), ENCRYPTED_LEASESET_MAX_ENCRYPTED_SIZE)
+	}
 	return nil
 }
 
